@@ -101,7 +101,9 @@ func (w *worker) work(controller inputer, jobProvider *jobProvider, readBufferSi
 			if isNotFileBeingWritten(file.Name()) {
 				// lz4 does not support appending, so we check that no one is writing to the file
 				logger.Error("cannot process incomplete file. write in progress", zap.String("filename", file.Name()))
-				break
+				// skip this job only: a break here leaves the worker's loop and the goroutine ends,
+				// so every other file served by this worker would stop being read
+				continue
 			}
 			lz4Reader := lz4.NewReader(file)
 			if len(offsets) > 0 {
